@@ -720,7 +720,7 @@ def describe(plan):
             "setup": plan["setup"], "ops": plan["ops"]}
 
 
-MINIMISE_KW = {"protect": ("engine", "level", "model", "op", "how", "via", "exc", "local", "tree"),
+MINIMISE_KW = {"protect": ("engine", "level", "model", "op", "how", "via", "exc", "local", "tree", "len"),
                "list_keys": ("ops", "setup", "idx", "edges"), "budget_s": 60.0, "max_tries": 200}
 
 # the first N runs are repeated in interpreters with another PYTHONHASHSEED
